@@ -33,11 +33,11 @@ type EnumSpec struct {
 }
 
 type TypeSpec struct {
-	Name         string       `json:"name"`
-	Kind         string       `json:"kind"` // list | map | struct | union | enum
-	Elem         string       `json:"elem,omitempty"`
+	Name string `json:"name"`
+	Kind string `json:"kind"` // list | map | struct | union | enum
+	Elem string `json:"elem,omitempty"`
 	// Key (maps): the key type when it is not String: the name of an earlier enum with string representation
-	Key string `json:"key,omitempty"`
+	Key          string       `json:"key,omitempty"`
 	ElemNullable bool         `json:"elem_nullable,omitempty"`
 	Fields       []FieldSpec  `json:"fields,omitempty"`
 	Repr         string       `json:"repr,omitempty"` // struct: map|tuple|stringjoin|listpairs; union: keyed|kinded|stringprefix; enum: string|int
@@ -341,16 +341,22 @@ func Draw(t *rapid.T, o GenOpts) Schema {
 			}
 			ty.Repr = rapid.SampledFrom(reprs).Draw(t, "structrepr")
 			nf := rapid.IntRange(1, 4).Draw(t, "nfields")
+			// field names need not be ASCII: a quarter of the structs the binding alone sees have names that begin
+			// with a two-byte letter (the Go field is then "Éa" for "éa")
+			initial := "f"
+			if !o.GenOnly && rapid.IntRange(0, 3).Draw(t, "nonascii") == 0 {
+				initial = "é"
+			}
 			if ty.Repr == "stringjoin" {
 				sr := avail(s.StringRepresentable)
 				ty.Delim = rapid.SampledFrom(delims).Draw(t, "delim")
 				for j := 0; j < nf; j++ {
-					ty.Fields = append(ty.Fields, FieldSpec{Name: "f" + string(rune('a'+j)), Type: rapid.SampledFrom(sr).Draw(t, "sjfield")})
+					ty.Fields = append(ty.Fields, FieldSpec{Name: initial + string(rune('a'+j)), Type: rapid.SampledFrom(sr).Draw(t, "sjfield")})
 				}
 				break
 			}
 			for j := 0; j < nf; j++ {
-				f := FieldSpec{Name: "f" + string(rune('a'+j)), Type: anyType("ftype")}
+				f := FieldSpec{Name: initial + string(rune('a'+j)), Type: anyType("ftype")}
 				switch rapid.IntRange(0, 5).Draw(t, "maybe") {
 				case 0:
 					f.Optional = true
